@@ -35,6 +35,10 @@ def _stimuli_of(labels):
             out.append(('tasksgone',))
         elif lab.startswith('FileGone'):
             out.append(('filegone',))
+        elif lab.startswith('ListenerDone'):
+            out.append(('lstdone',))
+        elif lab.startswith('CancelInListener'):
+            out.append(('lstcancel',))
     return tuple(out)
 
 
@@ -44,7 +48,8 @@ def _suspended_holders(labels):
 
 
 def _init_key(st):
-    return (str(st['dir']), str(st['st']), bool(st['file']), bool(st['bg']), bool(st['failR']))
+    return (str(st['dir']), str(st['st']), bool(st['file']), bool(st['bg']), bool(st['failR']),
+            str(st['lst2']), bool(st['loaded']))
 
 
 # ---------------------------------------------------------------------------
@@ -52,9 +57,10 @@ def _init_key(st):
 # ---------------------------------------------------------------------------
 
 class Replayer:
-    def __init__(self, tmpdir, api: bool):
+    def __init__(self, tmpdir, api: bool, allbytes: bool = False):
         self.tmpdir = tmpdir
         self.api = api
+        self.allbytes = allbytes      # load mode: the stored record had received/sent every byte
 
     def run(self, init, stimuli):
         return self.run_batch([(init, stimuli)])[0]
@@ -103,6 +109,8 @@ class Replayer:
 
         d, s0, has_file, has_bg = init[:4]
         has_reason = init[4] if len(init) > 4 else (s0 == 'FAILED')
+        lst2 = init[5] if len(init) > 5 else 'none'
+        loaded = init[6] if len(init) > 6 else True
         direction = TransferDirection.UPLOAD if d == 'up' else TransferDirection.DOWNLOAD
         t = Transfer('peer', 'music\\song.mp3', direction)
         t.state = TransferState.init_from_state(TransferState.State[s0], t)
@@ -135,7 +143,15 @@ class Replayer:
             self._env = (settings, bus, um, TransferManager(settings, bus, um, AsyncMock(), network))
         manager = self._env[3]
         manager._transfers.clear()
-        await manager.add(t)
+        added_seen = []
+        if loaded:
+            await manager.add(t)
+        else:
+            # stored record: installed the way a start-up does it, through read_cache(); the
+            # application attaches its listener from the TransferAddedEvent handler
+            from aioslsk.events import TransferAddedEvent
+            t.filesize = 10
+            t.bytes_transfered = 10 if self.allbytes else 3
         from aioslsk.user.model import BlockingFlag
         if self.api == 'mgmt':
             self._env[0].users.blocked['peer'] = BlockingFlag.UPLOADS
@@ -163,7 +179,53 @@ class Replayer:
                 events.append(dict(ev='notify', old=old.name, new=new.name, snap=snap()))
 
         lst = Listener()
-        t.state_listeners.append(lst)
+
+        class ListenerBoom(Exception):
+            pass
+
+        lst_gates = []             # (future, task) of callers suspended in the slow application listener
+        lst_cancelled = set()      # tasks the harness cancelled there
+
+        class Listener2:
+            async def on_transfer_state_changed(self, transfer, old, new):
+                if lst2 == 'raise':
+                    raise ListenerBoom()
+                if lst2 == 'slow':
+                    fut = loop.create_future()
+                    lst_gates.append((fut, asyncio.current_task()))
+                    await fut
+
+        lst2_obj = Listener2()
+        if loaded:
+            t.state_listeners.append(lst)
+            t.state_listeners.append(lst2_obj)
+        else:
+            async def on_added(event):
+                if event.transfer is t or event.transfer == t:
+                    tr = event.transfer
+                    added_seen.append(tr.state.VALUE.name)
+                    events.append(dict(ev='init', dir=d, st=tr.state.VALUE.name,
+                                       file=os.path.exists(path) if d == 'down' else False,
+                                       bg=False, failR=tr.fail_reason is not None, lst2=lst2, load=True, snap=snap()))
+                    tr.state_listeners.append(lst)
+                    tr.state_listeners.append(lst2_obj)
+            self._keep = on_added       # the bus holds listeners weakly
+            self._env[1].register(TransferAddedEvent, on_added)
+            old_cache = manager.cache
+            manager.cache = MagicMock()
+            manager.cache.read = MagicMock(return_value=[t])
+            try:
+                await manager.read_cache()
+            finally:
+                manager.cache = old_cache
+                self._env[1].unregister(TransferAddedEvent, on_added)
+            await vloop.settle(loop)
+            if not added_seen:
+                events.append(dict(ev='init', dir=d, st=t.state.VALUE.name, file=False, bg=False, failR=False,
+                                   lst2=lst2, load=True, snap=snap()))
+                events.append(dict(ev='harness_saw_exception', what='no-TransferAddedEvent-for-the-stored-transfer',
+                                   snap=snap()))
+                return events
 
         # gated executor: hold os.remove until the behaviour says FileGone
         def gate(func, a):
@@ -194,10 +256,11 @@ class Replayer:
             t._remotely_queue_task.add_done_callback(t._remotely_queue_task_complete)
             await asyncio.sleep(0)
 
-        events.append(dict(ev='init', dir=d, st=s0, file=snap()['file'] if d == 'down' else False,
-                           bg=has_bg, failR=bool(has_reason), snap=snap()))
-        if d == 'up':
-            events[-1]['file'] = False
+        if loaded:
+            events.append(dict(ev='init', dir=d, st=s0, file=snap()['file'] if d == 'down' else False,
+                               bg=has_bg, failR=bool(has_reason), lst2=lst2, load=False, snap=snap()))
+            if d == 'up':
+                events[-1]['file'] = False
 
         task_slot_used = [False]
 
@@ -227,8 +290,15 @@ class Replayer:
                     else:
                         val = await meth()
             except asyncio.CancelledError:
+                if asyncio.current_task() in lst_cancelled:
+                    # cancelled by the environment inside the slow application listener
+                    events.append(dict(ev='ret', c=c, val='raised', snap=snap()))
+                    return
                 events.append(dict(ev='cancelled', c=c, snap=snap()))
                 raise
+            except ListenerBoom:
+                events.append(dict(ev='ret', c=c, val='raised', snap=snap()))
+                return
             except Exception as exc:  # the code under test raised: an observation
                 events.append(dict(ev='ret', c=c, val=f'exc:{type(exc).__name__}', snap=snap()))
                 return
@@ -252,18 +322,40 @@ class Replayer:
                     bg_release.set_result(None)
             elif stim[0] == 'filegone':
                 self._release_files(removed_gate)
+            elif stim[0] == 'lstdone':
+                self._release_listener(lst_gates)
+            elif stim[0] == 'lstcancel':
+                while lst_gates:
+                    fut, tk = lst_gates.pop(0)
+                    if not fut.done() and not tk.done():
+                        lst_cancelled.add(tk)
+                        tk.cancel()
+                        break
             await vloop.settle(loop)
         # let everything finish: release all gates
-        for _ in range(6):
+        for _ in range(8):
             if not bg_release.done():
                 bg_release.set_result(None)
             self._release_files(removed_gate)
+            while self._release_listener(lst_gates):
+                pass
             await vloop.settle(loop)
         pending = [tk for tk in tasks if not tk.done()]
         if pending:
             events.append(dict(ev='stuck', n=len(pending), snap=snap()))
-        t.state_listeners.remove(lst)
+        for x in (lst, lst2_obj):
+            if x in t.state_listeners:
+                t.state_listeners.remove(x)
         return events
+
+    @staticmethod
+    def _release_listener(gates):
+        while gates:
+            fut, tk = gates.pop(0)
+            if not fut.done():
+                fut.set_result(None)
+                return True
+        return False
 
     @staticmethod
     def _release_files(gated):
@@ -324,6 +416,10 @@ def collect_schedules(chk: Check, thorough: bool):
     # (2) transition cover of the 3-caller graph restricted to a slow first call (the only way for
     #     calls to overlap in the real code is a holder suspended in task cancellation / file removal)
     add_cover('MC_c3_slow.cfg', 'slow3')
+    # (2b) the application listener behind the manager raises / is slow (caller cancelled inside it)
+    add_cover('MC_c2_lst_cover.cfg', 'lst2')
+    # (2c) the transfer starts as a stored record installed through read_cache()
+    add_cover('MC_c1_load_cover.cfg', 'load1')
     # (3) random behaviours of the unrestricted 3-caller model
     num = 30000 if thorough else 800
     behs, sres = tlc.simulate_behaviours(SPEC, 'MC_c3.cfg', num=num, depth=16 if thorough else 14, seed=chk.seed + 1,
@@ -400,7 +496,7 @@ def run(chk: Check, args):
     for k, src in scheds.items():
         by_src.setdefault(src, []).append(k)
     keys = []
-    caps = dict(cover2=None, slow3=None, sim3=None) if thorough else dict(cover2=3800, slow3=3800, sim3=600)
+    caps = dict(cover2=None, slow3=None, sim3=None, lst2=None, load1=None) if thorough else dict(cover2=3800, slow3=3800, sim3=600, lst2=2400, load1=None)
     for src, ks in sorted(by_src.items()):
         ks.sort()
         cap = caps.get(src)
@@ -427,13 +523,15 @@ def run(chk: Check, args):
     traces, metas = [], []
     API_OPS = ('abort', 'queue', 'pause')
     try:
-        for api in (False, True, 'mgmt'):
-            rp = Replayer(tmp, api)
+        for api, allbytes in ((False, False), (True, False), ('mgmt', False), (False, True)):
+            rp = Replayer(tmp, api, allbytes)
             # the API variant differs only when some non-task call is abort/queue/pause; the management
             # variant (abort through manage_shares_changed for a blocked user) applies to uploads with
             # exactly one non-task abort
-            if api == 'mgmt':
-                ks = [k for k in keys if k[0][0] == 'up' and
+            if allbytes:
+                ks = [k for k in keys if not k[0][6] and k[0][1] in ('DOWNLOADING', 'UPLOADING')]
+            elif api == 'mgmt':
+                ks = [k for k in keys if k[0][0] == 'up' and k[0][5] == 'none' and
                       sum(1 for s in k[1] if s[0] == 'call' and s[2] == 'abort' and not s[3]) == 1 and
                       not any(s[0] == 'call' and s[2] == 'abort' and s[3] for s in k[1])]
             else:
@@ -442,7 +540,7 @@ def run(chk: Check, args):
                 part = ks[i:i + 400]
                 for (init, stim), ev in zip(part, rp.run_batch(part)):
                     traces.append(ev)
-                    metas.append(dict(init=init, stimuli=stim, api=api, source=scheds[(init, stim)]))
+                    metas.append(dict(init=init, stimuli=stim, api=api, allbytes=allbytes, source=scheds[(init, stim)]))
                     chk.count(tuple((e['ev'], e.get('c'), e.get('op'), e.get('old'), e.get('new'), e.get('val'),
                                      e.get('seen')) for e in ev) + (init,),
                               nontrivial=any(e['ev'] == 'call' for e in ev))
@@ -491,7 +589,7 @@ def replay(chk: Check, data: dict):
     stim = tuple(tuple(x) for x in meta['stimuli'])
     tmp = tempfile.mkdtemp(prefix='c03-')
     try:
-        ev = Replayer(tmp, bool(meta.get('api'))).run(init, stim)
+        ev = Replayer(tmp, meta.get('api'), bool(meta.get('allbytes'))).run(init, stim)
     finally:
         shutil.rmtree(tmp, ignore_errors=True)
     for e in ev:
